@@ -889,6 +889,8 @@ def weight_int8pack_mm(E, a, w, scales, node=None):
     """torch._weight_int8pack_mm(A[M,K] bf16, W[N,K] int8, scales[N]) = (A @ W.T) * scales  (assumed specification)."""
     if len(a.shape) != 2 or len(w.shape) != 2 or len(scales.shape) != 1:
         raise_(E, "RuntimeError", "_weight_int8pack_mm: expects 2D A, 2D W and 1D scales", node)
+    # checked by the kernel (TORCH_CHECK): one scale per output feature
+    E.oblige("int8pack-scales-one-per-output-feature", zi(scales.shape[0]) == zi(w.shape[0]), kind="torch-pre", node=node)
     # assumed specification: products are accumulated in float32, the result is returned in the activation dtype
     wt = t_(E, to_dtype(E, w, "float32"))
     prod = matmul(E, to_dtype(E, a, "float32"), wt, node)
